@@ -186,12 +186,33 @@ def siblings(ctx):
             'select_one: pipeline over the pool, first element or None', so, construct=M + 'MetaClass.select_one', key='select_one',
             msg='select_one is not `next(iter(apply_query_operators(self.storage, args)), None)`')
     ok = True
-    for is_qs in (True, False):
-        mi = absint.Interp(sm, [('isinstance(_X, QuerySet)', lambda e, s, tr: s['qs'] if pm.match(PIPE, e['_X']) is not None else None)])
-        mi.pure_calls = {'apply_query_operators', 'QuerySet'}
-        o2, _ = mi.run({'qs': is_qs})
-        want = PIPE if is_qs else 'QuerySet(%s)' % PIPE
-        ok = ok and o2.kind == 'return' and o2.value is not None and pm.match(want, o2.value) is not None
+    try:
+        for is_qs in (True, False):
+            mi = absint.Interp(sm, [('isinstance(_X, QuerySet)', lambda e, s, tr: s['qs'] if pm.match(PIPE, e['_X']) is not None else None)])
+            mi.pure_calls = {'apply_query_operators', 'QuerySet'}
+            o2, _ = mi.run({'qs': is_qs})
+            want = PIPE if is_qs else 'QuerySet(%s)' % PIPE
+            ok = ok and o2.kind == 'return' and o2.value is not None and pm.match(want, o2.value) is not None
+    except AnalysisError:
+        # a test the table does not know: decide on the returned values alone - whatever the path, select_many hands back the WHOLE
+        # result of the pipeline over the pool (as it is, or wrapped in a QuerySet)
+        once = {}
+        for n_ in ast.walk(sm):
+            if isinstance(n_, ast.Assign) and len(n_.targets) == 1 and isinstance(n_.targets[0], ast.Name):
+                once.setdefault(n_.targets[0].id, []).append(n_.value)
+        rets = [n_ for n_ in ast.walk(sm) if isinstance(n_, ast.Return)]
+        if not rets:
+            raise
+        for rt in rets:
+            v = rt.value
+            if isinstance(v, ast.Call) and dotted(v.func) == 'QuerySet' and len(v.args) == 1 and not v.keywords:
+                v = v.args[0]
+            if isinstance(v, ast.Name) and len(once.get(v.id, [])) == 1:
+                v = once[v.id][0]
+            whole = v is not None and pm.match(PIPE, v) is not None
+            r.check(whole, 'select_many returns the whole pipeline result', rt, construct=M + 'MetaClass.select_many', key='select_many-return',
+                    msg='select_many has a path that returns `%s`, which is not the whole result of apply_query_operators(self.storage, args): '
+                        'instances that satisfy all filters are left out (or others let in) on that path' % src(rt.value)[:100])
     r.check(ok,
             'select_many: same pipeline, wrapped in a QuerySet', sm, construct=M + 'MetaClass.select_many', key='select_many',
             msg='select_many is not `QuerySet(apply_query_operators(self.storage, args))`')
